@@ -282,7 +282,8 @@ def run(rep, tier, only=None):
         part_A1(rep, root, T)
     if not only or 'A3' in only:
         runner.run_twin(rep, H, 'twin', 60)
-        conds = [Cond('check_rt2', 200 if tier == 'quick' else 1200), Cond('check_rt3', 200 if tier == 'quick' else 1200),
+        conds = [Cond(n_, 300 if tier == 'quick' else 1200) for n_ in ('check_rt2_a', 'check_rt2_b0', 'check_rt2_b1', 'check_rt2_c0', 'check_rt2_c1', 'check_rt2_c2', 'check_rt2_c3')] + [
+                 Cond('check_rt3', 300 if tier == 'quick' else 1200),
                  Cond('check_runs', 300 if tier == 'quick' else 1200)]
         runner.run_conditions(rep, H, conds)
     rep.sample(dict(part='A2', inputs='offset, length, byte symbolic', oracle='ref_lzss.decode_token'))
